@@ -72,6 +72,12 @@ def run_scenarios(exe, scenarios, jobs=14, timeout=1500, _retry=True):
             for sc, r in zip(missing, ex.map(alone, missing)):
                 res[sc["id"]] = r
     shutil.rmtree(d, ignore_errors=True)
+    if _retry:
+        envfail = [sc for sc in scenarios if any(t in str(res.get(sc["id"], {}).get("fatal", "")) for t in ("no space left", "preallocate", "too many open files", "cannot allocate memory"))]
+        if envfail and len(envfail) <= 200:
+            time.sleep(2)
+            for sc, r in zip(envfail, run_scenarios(exe, envfail, jobs=2, timeout=600, _retry=False)):
+                res[sc["id"]] = r
     return [res.get(sc["id"], {"id": sc["id"], "fatal": "no result (driver died or timed out)"}) for sc in scenarios]
 
 
@@ -145,6 +151,8 @@ def audit_atomic(sc, r):
     """returns list of violated conclusions (strings); empty = holds. Uses the post-recovery MVCC dump."""
     bad = []
     if r.get("fatal"):
+        if r.get("died"):
+            return ["the client process aborted while executing this scenario: " + str(r["fatal"])[:300]]
         return ["driver-fatal: " + str(r["fatal"])[:200]]
     S = r.get("start_ts")
     told = r.get("told", "none")
